@@ -123,3 +123,62 @@ func VerifC13_FullSyncThenStream() {
 }
 
 func init() { vHarness["VerifC13_FullSyncThenStream"] = VerifC13_FullSyncThenStream }
+
+// The whole push path: the ACTIVE's real PushChange and broadcast loop produce the stream (changes and a heartbeat
+// in any order the loop's select may take them), the standby's real handler consumes it: every pushed change is
+// applied, in push order, whatever the position of the heartbeat.
+func VerifC13_PushPipeline() {
+	standby, store := verifStandby()
+	acfg := DefaultSyncConfig()
+	acfg.Role = RoleActive
+	acfg.NodeID = "active"
+	active := NewHASyncer(acfg, NewInMemorySessionStore(), zap.NewNop())
+	client := make(chan *SyncMessage, 100)
+	active.sseClients["standby"] = client
+	// the standby is in sync with an empty table
+	vAssume(verifFullSync(standby, nil) == nil)
+	want := map[string]SessionState{}
+	k := vParam("K", 2)
+	nid := vParam("ids", 2)
+	// changes pushed earlier have been delivered already (the sequence counter is not at zero)
+	earlier := ndPick("earlier-changes", 2)
+	for i := 0; i < earlier; i++ {
+		ss := verifSession(vIDs[0], "e")
+		vAssume(active.PushChange(SyncTypeAdd, &ss) == nil)
+		want[ss.SessionID] = ss
+	}
+	for i := 0; i < k; i++ {
+		id := vIDs[ndPick("id", nid)]
+		ss := verifSession(id, "m")
+		switch ndPick("msg", 3) {
+		case 0:
+			vAssume(active.PushChange(SyncTypeAdd, &ss) == nil)
+			want[id] = ss
+		case 1:
+			vAssume(active.PushChange(SyncTypeUpdate, &ss) == nil)
+			want[id] = ss
+		case 2:
+			vAssume(active.PushChange(SyncTypeDelete, &ss) == nil)
+			delete(want, id)
+		}
+	}
+	// the broadcast loop drains the queue; its heartbeat ticker fires once, at any point relative to the queued changes
+	vSelectNondet()
+	go active.broadcastLoop()
+	vRunPending()
+	for {
+		var msg *SyncMessage
+		select {
+		case msg = <-client:
+		default:
+		}
+		if msg == nil {
+			break
+		}
+		vAssume(standby.handleSSEData(vJSON(msg)) == nil)
+	}
+	verifTableEquals(standby, store, want, "after the pushed changes were streamed")
+	vReach("end")
+}
+
+func init() { vHarness["VerifC13_PushPipeline"] = VerifC13_PushPipeline }
